@@ -40,6 +40,9 @@ func ModuleAddr() string {
 
 // Pad32 left-pads b with zeros to 32 bytes.
 func Pad32(b []byte) []byte {
+	if len(b) > 32 {
+		b = b[len(b)-32:]
+	}
 	out := make([]byte, 32)
 	copy(out[32-len(b):], b)
 	return out
